@@ -56,6 +56,9 @@ inductive Shape1 where
   | poly (vs : List (Num × Num))
   deriving Repr, Inhabited
 
+def Shape1.tag : Shape1 → String
+  | .rect .. => "rectangle" | .circ .. => "circle" | .poly .. => "polygon"
+
 /-- ShapeXMLNode._create_single_element; `dyn` = dynamic_obstacle_shape -/
 def shape1Node (p : Nat) (dyn : Bool) : Shape1 → Xml
   | .rect l w o cx cy =>
@@ -107,6 +110,12 @@ inductive Attr where
   | time (t : TimeV)
   | value (attr : String) (v : Val)      -- `attr` is the Python attribute name
   deriving Repr, Inhabited
+
+/-- element name of the attribute's node -/
+def Attr.name : Attr → String
+  | .position _ => "position"
+  | .time _ => "time"
+  | .value a _ => xmlProp a
 
 def attrNode (p : Nat) : Attr → Xml
   | .position q => posNode p q
@@ -214,9 +223,13 @@ def optLeaf (n : String) : Option String → List Xml
   | some v => [leaf n v.toList]
   | none => []
 
+def stopPtNodes (p : Nat) : Option (Pt × Pt) → List Xml
+  | some (a, b) => [ptNode p "point" a, ptNode p "point" b]
+  | none => []
+
 /-- LaneletStopLineXMLNode.create_node -/
 def stopLineNode (p : Nat) (s : StopLineD) : Xml :=
-  el "stopLine" ((match s.pts with | some (a, b) => [ptNode p "point" a, ptNode p "point" b] | none => []) ++
+  el "stopLine" (stopPtNodes p s.pts ++
     optLeaf "lineMarking" s.marking ++ s.signs.map (refNode "trafficSignRef") ++ s.lights.map (refNode "trafficLightRef"))
 
 structure LaneletD where
@@ -244,13 +257,19 @@ def adjNode (tag : String) : Option (Int × Bool) → List Xml
   | some (i, same) => [.node tag [("ref", String.ofList (intStr i)), ("drivingDir", if same then "same" else "opposite")] [] []]
   | none => []
 
+def optStopNodes (p : Nat) : Option StopLineD → List Xml
+  | some s => [stopLineNode p s]
+  | none => []
+
+/-- the written lanelet types: an empty set is written as one `unknown` -/
+def typesWritten (types : List String) : List String := if types.isEmpty then ["unknown"] else types
+
 /-- LaneletXMLNode.create_node -/
 def laneletNode (p : Nat) (l : LaneletD) : Xml :=
   .node "lanelet" (idAttr l.id) [] ([boundNode p "leftBound" l.left l.lmLeft, boundNode p "rightBound" l.right l.lmRight] ++
     l.pred.map (refNode "predecessor") ++ l.succ.map (refNode "successor") ++
     adjNode "adjacentLeft" l.adjL ++ adjNode "adjacentRight" l.adjR ++
-    (match l.stop with | some s => [stopLineNode p s] | none => []) ++
-    (if l.types.isEmpty then ["unknown"] else l.types).map (fun v => leaf "laneletType" v.toList) ++
+    optStopNodes p l.stop ++ (typesWritten l.types).map (fun v => leaf "laneletType" v.toList) ++
     l.oneWay.map (fun v => leaf "userOneWay" v.toList) ++ l.bidir.map (fun v => leaf "userBidirectional" v.toList) ++
     l.signs.map (refNode "trafficSignRef") ++ l.lights.map (refNode "trafficLightRef"))
 
@@ -263,11 +282,17 @@ structure SignD where
   virtual : Option Bool
   deriving Repr, Inhabited
 
+/-- `<position><point>` of a traffic sign / light that has a position -/
+def optPosNodes (p : Nat) : Option Pt → List Xml
+  | some q => [el "position" [ptNode p "point" q]]
+  | none => []
+
+def signElementNode (e : String × List String) : Xml :=
+  el "trafficSignElement" (leaf "trafficSignID" e.1.toList :: e.2.map (fun v => leaf "additionalValue" v.toList))
+
 /-- TrafficSignXMLNode.create_node -/
 def signNode (p : Nat) (s : SignD) : Xml :=
-  .node "trafficSign" (idAttr s.id) [] (s.elements.map (fun e =>
-      el "trafficSignElement" (leaf "trafficSignID" e.1.toList :: e.2.map (fun v => leaf "additionalValue" v.toList))) ++
-    (match s.pos with | some q => [el "position" [ptNode p "point" q]] | none => []) ++ optB "virtual" s.virtual)
+  .node "trafficSign" (idAttr s.id) [] (s.elements.map signElementNode ++ optPosNodes p s.pos ++ optB "virtual" s.virtual)
 
 structure LightD where
   id : Int
@@ -281,13 +306,18 @@ def offsetNodes : Option Int → List Xml
   | some o => if 0 < o then [leaf "timeOffset" (intStr o)] else []
   | none => []
 
-/-- TrafficLightXMLNode.create_node / TrafficLightCycleXMLNode.create_node -/
+def cycleElementNode (e : Int × String) : Xml := el "cycleElement" [leaf "duration" (intStr e.1), leaf "color" e.2.toList]
+
+/-- TrafficLightCycleXMLNode.create_node -/
+def cycleNode (es : List (Int × String)) (off : Option Int) : Xml := el "cycle" (es.map cycleElementNode ++ offsetNodes off)
+
+def optCycleNodes : Option (List (Int × String) × Option Int) → List Xml
+  | some (es, off) => [cycleNode es off]
+  | none => []
+
+/-- TrafficLightXMLNode.create_node -/
 def lightNode (p : Nat) (l : LightD) : Xml :=
-  .node "trafficLight" (idAttr l.id) [] ((match l.cycle with
-      | some (es, off) => [el "cycle" (es.map (fun e => el "cycleElement" [leaf "duration" (intStr e.1), leaf "color" e.2.toList]) ++
-          offsetNodes off)]
-      | none => []) ++
-    (match l.pos with | some q => [el "position" [ptNode p "point" q]] | none => []) ++
+  .node "trafficLight" (idAttr l.id) [] (optCycleNodes l.cycle ++ optPosNodes p l.pos ++
     optLeaf "direction" l.direction ++ optB "active" l.active)
 
 structure IncomingD where
@@ -305,15 +335,20 @@ structure IntersectionD where
   crossings : List Int
   deriving Repr, Inhabited
 
+def optRefNodes (n : String) : Option Int → List Xml
+  | some j => [refNode n j]
+  | none => []
+
 def incomingNode (i : IncomingD) : Xml :=
   .node "incoming" (idAttr i.id) [] (i.lanelets.map (refNode "incomingLanelet") ++ i.right.map (refNode "successorsRight") ++
-    i.straight.map (refNode "successorsStraight") ++ i.left.map (refNode "successorsLeft") ++
-    (match i.leftOf with | some j => [refNode "isLeftOf" j] | none => []))
+    i.straight.map (refNode "successorsStraight") ++ i.left.map (refNode "successorsLeft") ++ optRefNodes "isLeftOf" i.leftOf)
+
+def crossingNodes (cs : List Int) : List Xml :=
+  if cs.isEmpty then [] else [el "crossing" (cs.map (refNode "crossingLanelet"))]
 
 /-- IntersectionXMLNode.create_node -/
 def intersectionNode (x : IntersectionD) : Xml :=
-  .node "intersection" (idAttr x.id) [] (x.incomings.map incomingNode ++
-    (if x.crossings.isEmpty then [] else [el "crossing" (x.crossings.map (refNode "crossingLanelet"))]))
+  .node "intersection" (idAttr x.id) [] (x.incomings.map incomingNode ++ crossingNodes x.crossings)
 
 /-! ### planning problems, location, tags, document -/
 
@@ -357,17 +392,21 @@ def pad2 (n : Nat) : Str := if n < 10 then '0' :: natStr n else natStr n
 def timeText (h m : Nat) : Str := pad2 h ++ ':' :: pad2 m ++ ":00".toList
 
 /-- LocationXMLNode / GeoTransformationXMLNode / EnvironmentXMLNode (the three guards of the latter are always true) -/
+def geoNode (g : GeoD) : Xml :=
+  el "geoTransformation" [leaf "geoReference" g.ref.toList,
+    el "additionalTransformation" [leaf "xTranslation" g.x.dec, leaf "yTranslation" g.y.dec, leaf "zRotation" g.rot.dec,
+      leaf "scaling" g.scale.dec]]
+
+def envNode (e : EnvD) : Xml :=
+  el "environment" [leaf "time" (timeText e.hours e.minutes), leaf "timeOfDay" e.timeOfDay.toList,
+    leaf "weather" e.weather.toList, leaf "underground" e.underground.toList]
+
+def optGeoNodes : Option GeoD → List Xml | some g => [geoNode g] | none => []
+def optEnvNodes : Option EnvD → List Xml | some e => [envNode e] | none => []
+
 def locationNode (l : LocationD) : Xml :=
   el "location" ([leaf "geoNameId" (intStr l.geoNameId), leaf "gpsLatitude" l.lat.dec, leaf "gpsLongitude" l.lon.dec] ++
-    (match l.geo with
-     | some g => [el "geoTransformation" [leaf "geoReference" g.ref.toList,
-         el "additionalTransformation" [leaf "xTranslation" g.x.dec, leaf "yTranslation" g.y.dec, leaf "zRotation" g.rot.dec,
-           leaf "scaling" g.scale.dec]]]
-     | none => []) ++
-    (match l.env with
-     | some e => [el "environment" [leaf "time" (timeText e.hours e.minutes), leaf "timeOfDay" e.timeOfDay.toList,
-         leaf "weather" e.weather.toList, leaf "underground" e.underground.toList]]
-     | none => []))
+    optGeoNodes l.geo ++ optEnvNodes l.env)
 
 /-- TagXMLNode.create_node -/
 def tagsNode (tags : List String) : Xml := el "scenarioTags" (tags.map fun t => leaf t [])
